@@ -180,6 +180,29 @@ func c12dSortList(v interface{}) interface{} {
 // c12dCanon parses MOSNConfig JSON generically and sorts the three lists whose
 // order comes from map iteration in transferConfig.
 func c12dCanon(b []byte) (string, error) {
+	if r, ok := c12dCanonCache[string(b)]; ok {
+		return r.canon, r.err
+	}
+	cs, err := c12dCanonUncached(b)
+	c12dCanonCache[string(b)] = c12dCanonRes{cs, err}
+	return cs, err
+}
+
+type c12dCanonRes struct {
+	canon string
+	err   error
+}
+
+// pure functions of the raw bytes, memoised (the same few documents recur in
+// every execution)
+var (
+	c12dCanonCache  = map[string]c12dCanonRes{}
+	c12dParseCache  = map[string]error{}
+	c12dConfSecMemo = map[string]string{}
+	c12dGetSecMemo  = map[string]c12dCanonRes{}
+)
+
+func c12dCanonUncached(b []byte) (string, error) {
 	var root map[string]interface{}
 	if err := json.Unmarshal(b, &root); err != nil {
 		return "", err
@@ -202,6 +225,15 @@ func c12dCanon(b []byte) (string, error) {
 // c12dSections extracts (listeners, routers, clusters, extends) as sorted JSON
 // lists from a canonical MOSNConfig document.
 func c12dSectionsOfConfig(canon string) string {
+	if r, ok := c12dConfSecMemo[canon]; ok {
+		return r
+	}
+	r := c12dSectionsOfConfigUncached(canon)
+	c12dConfSecMemo[canon] = r
+	return r
+}
+
+func c12dSectionsOfConfigUncached(canon string) string {
 	var root map[string]interface{}
 	_ = json.Unmarshal([]byte(canon), &root)
 	var ls, rs, cs, es interface{} = []interface{}{}, []interface{}{}, []interface{}{}, []interface{}{}
@@ -227,8 +259,65 @@ func c12dSectionsOfConfig(canon string) string {
 	return string(b)
 }
 
+// c12dBrief: the parts of a configuration that the alphabet changes, for details
+func c12dBrief(canon string) string {
+	var root map[string]interface{}
+	if json.Unmarshal([]byte(canon), &root) != nil {
+		return canon
+	}
+	str := func(v interface{}) string { b, _ := json.Marshal(v); return string(b) }
+	var out []string
+	if ss, ok := root["servers"].([]interface{}); ok && len(ss) > 0 {
+		if sm, ok := ss[0].(map[string]interface{}); ok {
+			if ls, ok := sm["listeners"].([]interface{}); ok {
+				for _, l := range ls {
+					if m, ok := l.(map[string]interface{}); ok {
+						out = append(out, fmt.Sprintf("listener %v", m["name"]))
+					}
+				}
+			}
+			if rs, ok := sm["routers"].([]interface{}); ok {
+				for _, r := range rs {
+					if m, ok := r.(map[string]interface{}); ok {
+						var vhs []string
+						if l, ok := m["virtual_hosts"].([]interface{}); ok {
+							for _, vh := range l {
+								if vm, ok := vh.(map[string]interface{}); ok {
+									vhs = append(vhs, fmt.Sprint(vm["name"]))
+								}
+							}
+						}
+						out = append(out, fmt.Sprintf("router %v%v", m["router_config_name"], vhs))
+					}
+				}
+			}
+		}
+	}
+	if cm, ok := root["cluster_manager"].(map[string]interface{}); ok {
+		if cs, ok := cm["clusters"].([]interface{}); ok {
+			for _, c := range cs {
+				if m, ok := c.(map[string]interface{}); ok {
+					out = append(out, fmt.Sprintf("cluster %v lb=%v hosts=%s", m["name"], m["lb_type"], str(m["hosts"])))
+				}
+			}
+		}
+		out = append(out, "cluster_manager.tls_context="+str(cm["tls_context"]))
+	}
+	out = append(out, "extends="+str(root["extends"]))
+	return "{" + strings.Join(out, "; ") + "}"
+}
+
 // the same four sections from the admin view (DumpJSON: maps keyed by name)
 func c12dSectionsOfGetter(dump []byte) (string, error) {
+	if r, ok := c12dGetSecMemo[string(dump)]; ok {
+		return r.canon, r.err
+	}
+	cs, err := c12dSectionsOfGetterUncached(dump)
+	c12dGetSecMemo[string(dump)] = c12dCanonRes{cs, err}
+	return cs, err
+}
+
+func c12dSectionsOfGetterUncached(dump []byte) (string, error) {
 	var root map[string]interface{}
 	if err := json.Unmarshal(dump, &root); err != nil {
 		return "", err
@@ -478,10 +567,22 @@ const (
 func c12dJudge(c c12dCase, ref *c12dRef, st *c12dState) (summary string, viols [][2]string) {
 	add := func(k, d string) { viols = append(viols, [2]string{k, d}) }
 	full := append([]int(nil), ref.dims...)
-	prev := st.pre
+	// "unchanged" is decided on the canonical form: a rewrite of the same
+	// configuration in another map order is not a change
+	canonOrRaw := func(raw string) string {
+		if raw == "" {
+			return ""
+		}
+		if cs, err := c12dCanon([]byte(raw)); err == nil {
+			return cs
+		}
+		return "raw:" + raw
+	}
+	prev := canonOrRaw(st.pre)
 	judgeTick := func(label string, t c12dTick) string {
-		defer func() { prev = t.content }()
-		if t.content == prev {
+		cur := canonOrRaw(t.content)
+		defer func() { prev = cur }()
+		if cur == prev {
 			return label + ":unchanged"
 		}
 		if t.content == "" {
@@ -500,7 +601,7 @@ func c12dJudge(c c12dCase, ref *c12dRef, st *c12dState) (summary string, viols [
 			add(c12dKeyWindow, fmt.Sprintf("%s wrote the configuration after update prefixes [%s], but the calls returned before the tick were %v and the calls entered at its end %v", label, k, t.lo, t.hi))
 			return fmt.Sprintf("%s:out-of-window[%s]", label, k)
 		}
-		add(c12dKeyTorn, fmt.Sprintf("%s (window %v..%v) wrote %s", label, t.lo, t.hi, cs))
+		add(c12dKeyTorn, fmt.Sprintf("%s (calls returned before it %v, entered at its end %v, programs %v) wrote %s", label, t.lo, t.hi, c.Progs, c12dBrief(cs)))
 		return label + ":torn"
 	}
 	var parts []string
@@ -521,7 +622,7 @@ func c12dJudge(c c12dCase, ref *c12dRef, st *c12dState) (summary string, viols [
 	}
 	effVec := ref.inWindow(eff, full, full)
 	if effVec == "" {
-		add(c12dKeyLastWins, fmt.Sprintf("programs %v: effective configuration %s", c.Progs, eff))
+		add(c12dKeyLastWins, fmt.Sprintf("programs %v: effective configuration %s", c.Progs, c12dBrief(eff)))
 	}
 	if gs, err := c12dSectionsOfGetter(st.getter); err != nil || gs != c12dSectionsOfConfig(eff) {
 		add(c12dKeyGetter, fmt.Sprintf("DumpJSON sections %s (err %v), transferred %s", gs, err, c12dSectionsOfConfig(eff)))
@@ -532,8 +633,7 @@ func c12dJudge(c c12dCase, ref *c12dRef, st *c12dState) (summary string, viols [
 		add(c12dKeyNoFile, "no file at "+filepath.Base(c12dPath))
 		parts = append(parts, "final:nofile")
 	default:
-		var parsed v2.MOSNConfig
-		if err := json.Unmarshal([]byte(final), &parsed); err != nil {
+		if err := c12dParses(final); err != nil {
 			add(c12dKeyParse, "final file: "+err.Error())
 			parts = append(parts, "final:unparsable")
 			break
@@ -552,11 +652,22 @@ func c12dJudge(c c12dCase, ref *c12dRef, st *c12dState) (summary string, viols [
 			add(c12dKeyStale, fmt.Sprintf("file holds the configuration after update prefixes [%s] of %v, the effective configuration is the one after all updates; dirty flag at the end = %d", k, c.Progs, st.flagEnd))
 			parts = append(parts, "final:stale["+k+"]")
 		} else {
-			add(c12dKeyForeign, fmt.Sprintf("file %s, effective %s", fc, eff))
+			add(c12dKeyForeign, fmt.Sprintf("file %s, effective %s", c12dBrief(fc), c12dBrief(eff)))
 			parts = append(parts, "final:foreign")
 		}
 	}
 	return strings.Join(parts, " "), viols
+}
+
+// c12dParses: the file loads the way DefaultConfigLoad loads it
+func c12dParses(raw string) error {
+	if err, ok := c12dParseCache[raw]; ok {
+		return err
+	}
+	var parsed v2.MOSNConfig
+	err := json.Unmarshal([]byte(raw), &parsed)
+	c12dParseCache[raw] = err
+	return err
 }
 
 func c12dRun(p *vreport.Part, c c12dCase, replay bool) bool {
@@ -622,14 +733,14 @@ func c12dRun(p *vreport.Part, c c12dCase, replay bool) bool {
 	if !stats.Complete {
 		p.Count("scenarios_cut_by_max_execs", 1)
 	}
-	if n, ok := c12dMaxDepth[c12dPart]; !ok || stats.MaxDepth > n {
-		c12dMaxDepth[c12dPart] = stats.MaxDepth
+	if stats.MaxDepth > c12dMaxDepth {
+		c12dMaxDepth = stats.MaxDepth
 		p.Note("max_scheduling_points", stats.MaxDepth)
 	}
 	return stats.Complete
 }
 
-var c12dMaxDepth = map[string]int{}
+var c12dMaxDepth int
 
 func c12dNames(idx ...int) []string {
 	var s []string
@@ -641,35 +752,47 @@ func c12dNames(idx ...int) []string {
 
 // c12dCases: complete products over the stated alphabets, in a fixed order.
 func c12dCases() (cases []c12dCase, bound string) {
+	th := vreport.Thorough()
 	b := vreport.Pick(2, 3)
-	cap1 := vreport.Pick(4000, 60000)
-	cap2 := vreport.Pick(1500, 20000)
+	capA := vreport.Pick(4000, 60000) // never reached in the quick tier
+	cap22 := vreport.Pick(500, 20000)
 	all := make([]int, len(c12dOps))
 	for i := range all {
 		all[i] = i
 	}
+	starts := []string{"dirty", "clean"}
 	// shape 1x1: every setter, both starts
-	for _, start := range []string{"dirty", "clean"} {
+	for _, start := range starts {
 		for _, i := range all {
-			cases = append(cases, c12dCase{Start: start, Progs: [][]string{c12dNames(i)}, Ticks: 2, Bound: b, MaxExecs: cap1})
-		}
-	}
-	// shape 2x1: every unordered pair (with repetition) of the operations, both starts
-	for _, start := range []string{"dirty", "clean"} {
-		for _, i := range all {
-			for _, j := range all {
-				if j < i {
-					continue
-				}
-				cases = append(cases, c12dCase{Start: start, Progs: [][]string{c12dNames(i), c12dNames(j)}, Ticks: 2, Bound: b, MaxExecs: cap1})
-			}
+			cases = append(cases, c12dCase{Start: start, Progs: [][]string{c12dNames(i)}, Ticks: 2, Bound: b, MaxExecs: capA})
 		}
 	}
 	// shape 1x2: every ordered pair over the cluster / hosts / router operations
 	seq := []int{0, 1, 2, 3, 4}
 	for _, i := range seq {
 		for _, j := range seq {
-			cases = append(cases, c12dCase{Start: "dirty", Progs: [][]string{c12dNames(i, j)}, Ticks: 2, Bound: b, MaxExecs: cap1})
+			cases = append(cases, c12dCase{Start: "dirty", Progs: [][]string{c12dNames(i, j)}, Ticks: 2, Bound: b, MaxExecs: capA})
+		}
+	}
+	// shape 2x1: every unordered pair (with repetition) of the operations.
+	// quick: all pairs with one preemption (dirty start) and the pairs over the
+	// conflicting operations with two; thorough: all pairs, both starts.
+	conflict := map[int]bool{1: true, 2: true, 3: true, 4: true}
+	for _, start := range starts {
+		if start == "clean" && !th {
+			continue
+		}
+		for _, i := range all {
+			for _, j := range all {
+				if j < i {
+					continue
+				}
+				pb := b
+				if !th && !(conflict[i] && conflict[j]) {
+					pb = 1
+				}
+				cases = append(cases, c12dCase{Start: start, Progs: [][]string{c12dNames(i), c12dNames(j)}, Ticks: 2, Bound: pb, MaxExecs: capA})
+			}
 		}
 	}
 	// shape 2x2: unordered pairs of 2-operation programs over a reduced alphabet
@@ -683,22 +806,34 @@ func c12dCases() (cases []c12dCase, bound string) {
 	}
 	for i := range progs {
 		for j := i; j < len(progs); j++ {
-			cases = append(cases, c12dCase{Start: "dirty", Progs: [][]string{progs[i], progs[j]}, Ticks: vreport.Pick(1, 2), Bound: b, MaxExecs: cap2})
+			cases = append(cases, c12dCase{Start: "dirty", Progs: [][]string{progs[i], progs[j]}, Ticks: vreport.Pick(1, 2), Bound: b, MaxExecs: cap22})
 		}
 	}
-	bound = fmt.Sprintf("updaters x calls: 1x1 (%d setters, dirty+clean start), 2x1 (all unordered pairs, dirty+clean start), 1x2 (ordered pairs over %d cluster/hosts/router operations), 2x2 (unordered pairs of 2-call programs over %d operations); dumper thread 2 ticks (2x2: %d) + one quiescent tick; <= %d preemptions; <= %d (2x2: %d) executions per scenario in DFS order",
-		len(all), len(seq), red, vreport.Pick(1, 2), b, cap1, cap2)
+	if th {
+		bound = fmt.Sprintf("updaters x calls: 1x1 (%d setters, dirty+clean start), 1x2 (ordered pairs over %d cluster/hosts/router operations), 2x1 (all unordered pairs of the %d setters calls, dirty+clean start), 2x2 (unordered pairs of 2-call programs over %d operations); dumper thread 2 ticks + one quiescent tick; <= %d preemptions; <= %d (2x2: %d) executions per scenario in DFS order",
+			len(all), len(seq), len(all), red, b, capA, cap22)
+	} else {
+		bound = fmt.Sprintf("updaters x calls: 1x1 (%d setters, dirty+clean start, <= %d preemptions), 1x2 (ordered pairs over %d cluster/hosts/router operations, <= %d), 2x1 (all unordered pairs of the %d setter calls, dirty start, <= 1 preemption; pairs over the 4 conflicting cluster/hosts/router operations <= %d), 2x2 (unordered pairs of 2-call programs over %d operations, dumper 1 tick, <= %d preemptions, first %d executions per scenario in DFS order); dumper thread 2 ticks + one quiescent tick",
+			len(all), b, len(seq), b, len(all), b, red, b, cap22)
+	}
 	return
 }
 
 func TestVerifC12Dump(t *testing.T) {
 	log.DefaultLogger.SetLogLevel(log.ERROR)
 	log.StartLogger.SetLogLevel(log.ERROR)
+	// the file goes through the real write path (temp file + rename). On ext4
+	// every rename over an existing file flushes it (auto_da_alloc), which makes
+	// an execution ~5x slower than on tmpfs; the content does not depend on the
+	// directory, so a memory file system is preferred when there is one.
 	work := os.Getenv("VERIF_WORK")
 	if work == "" {
 		work = os.TempDir()
 	}
-	dir, err := os.MkdirTemp(work, "c12dump-")
+	dir, err := os.MkdirTemp("/dev/shm", "verif-C12-dump-")
+	if err != nil {
+		dir, err = os.MkdirTemp(work, "c12dump-")
+	}
 	if err != nil {
 		vreport.HarnessError("C12", c12dPart, "cannot create the dump directory: "+err.Error())
 		return
